@@ -132,6 +132,22 @@ impl Shape {
         let l = 1 + rng.below(n - 1);
         Shape::Node(Box::new(Shape::random(rng, l, start)), Box::new(Shape::random(rng, n - l, start + l)))
     }
+    /// Build from ready-made leaf objects (cloned into place: clones share their allocation).
+    fn build_from_objects(&self, pick: &dyn Fn(usize) -> TapTree<Dk>) -> Result<TapTree<Dk>, String> {
+        match self {
+            Shape::Leaf(i) => Ok(pick(*i)),
+            Shape::Node(a, b) => TapTree::combine(a.build_from_objects(pick)?, b.build_from_objects(pick)?).map_err(|e| e.to_string()),
+        }
+    }
+    fn depths(&self, d: u8, out: &mut Vec<(usize, u8)>) {
+        match self {
+            Shape::Leaf(i) => out.push((*i, d)),
+            Shape::Node(a, b) => {
+                a.depths(d + 1, out);
+                b.depths(d + 1, out);
+            }
+        }
+    }
     fn build_lib(&self, leaves: &[Miniscript<Dk, Tap>]) -> Result<TapTree<Dk>, String> {
         match self {
             Shape::Leaf(i) => Ok(TapTree::leaf(leaves[*i].clone())),
@@ -237,6 +253,21 @@ fn check_tree(rep: &mut Report, case: u64, world: &World, shape: &Shape, ik: usi
     let ikey = &world.keys[ik % world.keys.len()];
     let s = format!("tr({},{})", ikey.xonly_hex, shape.to_string(&names));
     let height = shape.height();
+    // a tree beyond the depth limit must be refused by the constructors as well as by the parser
+    if height > 128 && n <= 300 {
+        let mss: Vec<Miniscript<Dk, Tap>> = names.iter().filter_map(|m| Miniscript::<Dk, Tap>::from_str(m).ok()).collect();
+        if mss.len() == n {
+            match guarded(std::panic::AssertUnwindSafe(|| shape.build_lib(&mss).map(|t| t.leaves().map(|l| l.depth()).max().unwrap_or(0)))) {
+                Ok(Ok(deepest)) => rep.violation(
+                    case,
+                    "C15:too-deep-tree-accepted:combine-api".into(),
+                    format!("TapTree::leaf/combine built a tree of height {} (deepest leaf reported at depth {}) ({})", height, deepest, how),
+                ),
+                Ok(Err(_)) => rep.count("too-deep-tree-refused(combine api)"),
+                Err(m) => rep.violation(case, format!("C15:panic:combine:{}", norm_loc(&last_panic_loc())), format!("{} on a tree of height {} ({})", m, height, how)),
+            }
+        }
+    }
     let parsed = guarded(|| Descriptor::<Dk>::from_str(&s));
     let d = match parsed {
         Err(m) => {
@@ -425,6 +456,41 @@ fn check_tree(rep: &mut Report, case: u64, world: &World, shape: &Shape, ik: usi
                 }
             }
             Err(m) => rep.violation(case, format!("C15:panic:leaves-rev:{}", norm_loc(&last_panic_loc())), format!("{}: {}", m, brief())),
+        }
+    }
+    // the same shape with only two leaf OBJECTS, cloned into every position (all leaves but the
+    // last are clones of one object, so neighbours at different depths share one allocation):
+    // depth and script of every position must survive construction, key translation and printing
+    if n >= 2 && n <= 64 {
+        let objs: Vec<TapTree<Dk>> = names.iter().take(2).filter_map(|m| Miniscript::<Dk, Tap>::from_str(m).ok()).map(TapTree::leaf).collect();
+        if objs.len() == 2 {
+            let which = |i: usize| if i + 1 == n { 1 } else { 0 };
+            let mut want: Vec<(usize, u8)> = vec![];
+            shape.depths(0, &mut want);
+            let want: Vec<(u8, Vec<u8>)> = want.iter().map(|(i, d)| (*d, scripts[which(*i)].clone())).collect();
+            let r = guarded(std::panic::AssertUnwindSafe(|| {
+                let t = shape.build_from_objects(&|i| objs[which(i)].clone())?;
+                let t2 = Tr::new(tr.internal_key().clone(), Some(t)).map_err(|e| e.to_string())?;
+                let list = |x: &Tr<Dk>| x.leaves().map(|l| (l.depth(), l.compute_script().to_bytes())).collect::<Vec<_>>();
+                let built = list(&t2);
+                let translated = t2.translate_pk(&mut Ident).map(|x| (list(&x), x.script_pubkey().to_bytes())).map_err(|_| "translate failed".to_string())?;
+                let reparsed = Tr::<Dk>::from_str(&t2.to_string()).map(|x| (list(&x), x.script_pubkey().to_bytes())).map_err(|e| e.to_string())?;
+                Ok::<_, String>((built, translated, reparsed, t2.script_pubkey().to_bytes()))
+            }));
+            match r {
+                Ok(Ok((built, translated, reparsed, spk2))) => {
+                    rep.count("shared-leaf-objects-checked");
+                    if built != want {
+                        rep.violation(case, format!("C15:shared-leaves:construction:{}", how), format!("a tree of {} clones of two leaf objects has leaves {:?}, expected {:?} ({})", n, short(&built), short(&want), how));
+                    } else if translated.0 != want || translated.1 != spk2 {
+                        rep.violation(case, format!("C15:shared-leaves:translate:{}", how), format!("identity translation of a tree of {} clones of two leaf objects gives leaves {:?}, expected {:?} ({})", n, short(&translated.0), short(&want), how));
+                    } else if reparsed.0 != want || reparsed.1 != spk2 {
+                        rep.violation(case, format!("C15:shared-leaves:string-roundtrip:{}", how), format!("printing and re-parsing a tree of {} clones of two leaf objects gives leaves {:?}, expected {:?} ({})", n, short(&reparsed.0), short(&want), how));
+                    }
+                }
+                Ok(Err(e)) => rep.violation(case, format!("C15:shared-leaves:refused:{}", how), format!("{} ({} leaves, height {}, {})", e, n, height, how)),
+                Err(m) => rep.violation(case, format!("C15:panic:shared-leaves:{}", norm_loc(&last_panic_loc())), format!("{} ({} leaves, height {}, {})", m, n, height, how)),
+            }
         }
     }
     if n <= 300 {
